@@ -46,9 +46,9 @@ def _val(rng):
         return float(rng.randint(-100000, 100000))
     if r < 0.45:
         return float(Decimal(rng.randint(-9999999, 9999999)).scaleb(rng.randint(-12, 6)))
-    if r < 0.93:
+    if r < 0.95:
         return rng.uniform(-10, 10) * 10.0 ** rng.randint(-30, 30)
-    if r < 0.97:
+    if r < 0.99:
         # near a rounding boundary of the 7th digit
         return float(Decimal(rng.randint(1000000, 9999999) * 10 + 5).scaleb(rng.randint(-12, 3))) * rng.choice([1, -1])
     return rng.uniform(-10, 10) * 10.0 ** rng.choice([-300, -200, 200, 300])
@@ -368,6 +368,8 @@ def impl(case):
 
 # ----------------------------------------------------------------------------- Coq term
 def _s(x):
+    if all(32 <= ord(ch) < 127 or ch == '\n' for ch in x):
+        return '(s2z "%s"%%string)' % x.replace('"', '""')
     return C.zlist([ord(ch) for ch in x])
 
 
@@ -376,7 +378,20 @@ def _d(me):
 
 
 def _dhex(hx):
-    return _d(_dec_of_number(float.fromhex(hx)))
+    x = float.fromhex(hx)
+    if x == 0:
+        return '(D 0 0)'
+    m, e = x.as_integer_ratio()[0], 0
+    fr = Fraction(x)
+    m, den = fr.numerator, fr.denominator
+    if den == 1:
+        k = 0
+        while m % 2 == 0:
+            m //= 2
+            k += 1
+    else:
+        k = -(den.bit_length() - 1)
+    return '(dbin %s %s)' % (C.zc(m), C.zc(k))
 
 
 def _var_term(v):
